@@ -9,6 +9,7 @@ import (
 	"path/filepath"
 	"sort"
 	"strings"
+	"time"
 
 	"github.com/smhanov/syzgydb"
 )
@@ -33,7 +34,7 @@ func genMutatedRequest(rng *rand.Rand) httpReq {
 		}
 		return v
 	}
-	switch rng.Intn(12) {
+	switch rng.Intn(13) {
 	case 0: // create with unsupported options
 		q := []any{7, 0, -8, 3, 128, "64", 1e9, nil}[rng.Intn(8)]
 		d := []any{0, -1, 3, "3", 1 << 40, nil}[rng.Intn(6)]
@@ -107,6 +108,19 @@ func genMutatedRequest(rng *rand.Rand) httpReq {
 		return httpReq{"POST", base + "/search", jsonS(map[string]any{"text": "hello", "k": 2}), "search-text-offline"}
 	case 10: // huge / odd numbers
 		return httpReq{"POST", base + "/search", jsonS(map[string]any{"vector": vec(3), "k": []any{-1, 1 << 40, 0}[rng.Intn(3)], "offset": -5, "limit": -2, "radius": []any{-1.0, 1e308}[rng.Intn(2)]}), "search-odd-numbers"}
+	case 11: // a listing (no k, no radius, no vector) with odd paging values
+		lim := []string{"-1", "-5", "-9223372036854775808", "9223372036854775807", "1099511627776", "2147483648", "x", "1.5", "", "0", "3"}[rng.Intn(11)]
+		off := []string{"-1", "-9223372036854775808", "9223372036854775807", "1099511627776", "x", "", "0", "2"}[rng.Intn(8)]
+		if rng.Intn(2) == 0 {
+			return httpReq{"GET", base + "/search?limit=" + lim + "&offset=" + off, "", "listing-odd-paging"}
+		}
+		num := func(t string) string {
+			if t == "" || t == "x" {
+				return "0"
+			}
+			return t
+		}
+		return httpReq{"POST", base + "/search", `{"limit":` + num(lim) + `,"offset":` + num(off) + `}`, "listing-odd-paging"}
 	default: // duplicate create
 		return httpReq{"POST", "/api/v1/collections", jsonS(map[string]any{"name": "c1", "distance_function": "cosine", "vector_size": 9, "quantization": 8}), "create-duplicate"}
 	}
@@ -132,6 +146,9 @@ func restC18(o *Opts) {
 	defer func() { srv.kill() }()
 	setup := func() {
 		for _, c := range []string{"c1", "c2"} {
+			if g := srv.do("GET", "/api/v1/collections/"+c, nil); g.Status == 200 {
+				continue // still there: the set-up itself sends valid, first-time requests only
+			}
 			srv.do("POST", "/api/v1/collections", []byte(jsonS(map[string]any{"name": c, "distance_function": "euclidean", "vector_size": 3, "quantization": 64})))
 		}
 		for i := 0; i < 6; i++ {
@@ -139,7 +156,17 @@ func restC18(o *Opts) {
 		}
 	}
 	setup()
+	fatalKinds := map[string]int{}
 	for i := 0; i < n; i++ {
+		iterStart := time.Now()
+		if !srv.alive() {
+			// not answering before anything was sent in this round: an earlier request left it stuck
+			res.Violate("impl-failure", "C18/server-stuck", "the server stopped answering (within 5 s) although the last request had been answered", map[string]any{"iteration": i})
+			srv.kill()
+			if !srv.start() {
+				fatal("server does not restart: %s", srv.log.String())
+			}
+		}
 		// the mutated stream contains legitimate DELETEs of collections: make sure both exist again
 		if r := srv.do("GET", "/api/v1/collections/c1", nil); r.Status == 404 {
 			setup()
@@ -156,6 +183,11 @@ func restC18(o *Opts) {
 			}
 		}
 		req := genMutatedRequest(rng)
+		if fatalKinds[req.Why] >= 3 {
+			// this kind of request has taken the server down (or hung it) three times already: reported, not repeated
+			res.Hit("skipped-after-3-failures:" + req.Why)
+			continue
+		}
 		before, okb := srv.observe()
 		filesBefore := fileNames(srv.folder)
 		res.Evaluations++
@@ -164,12 +196,19 @@ func restC18(o *Opts) {
 		if req.Body != "" || req.Method == "POST" || req.Method == "PUT" {
 			body = []byte(req.Body)
 		}
+		t0 := time.Now()
 		r := srv.do(req.Method, req.Path, body)
+		if os.Getenv("VERIF_DEBUG") != "" {
+			fmt.Fprintf(os.Stderr, "c18 %d %s %s %s -> %d in %v (iteration started %v ago)\n", i, req.Why, req.Method, req.Path, r.Status, time.Since(t0), time.Since(iterStart))
+		}
 		res.Hit(fmt.Sprintf("%s:%d", req.Why, r.Status))
 		if i < 3 {
 			res.Sample(map[string]any{"request": req, "status": r.Status})
 		}
 		replay := map[string]any{"request": req}
+		if r.Status == 0 || !srv.alive() {
+			fatalKinds[req.Why]++
+		}
 		if r.Status == 0 {
 			res.Violate("impl-failure", "C18/dropped-connection/"+req.Why, fmt.Sprintf("%s %s: no complete HTTP response (%s)", req.Method, req.Path, abbreviate(r.Dropped, 120)), replay)
 		}
